@@ -5,6 +5,7 @@
 
 #include "common.hpp"
 
+#include <map>
 #include <typeinfo>
 
 namespace vf {
@@ -111,6 +112,17 @@ struct P_def : yp::debug::rebind<P_def>::replace<yp::rtti, def_rtti> {};
 struct P_b : yp::debug::rebind<P_b>::replace<yp::rtti, dyn_rtti> {};
 struct P_c : yp::release::rebind<P_c>::replace<yp::rtti, dyn_rtti>::remove<yp::type_hash>::replace<
                  yp::external_vptr, yp::vptr_map<P_c>> {};
+
+// facets with explicit non-default extra template arguments, and a policy obtained from
+// it by rebind: the rebound policy must get its *own* map, handler and stream
+struct quiet_handler {
+    static void default_error_handler(const yorel::yomm2::error_type&) {
+    }
+};
+using ordered_vptr_map = std::map<type_id, const std::uintptr_t*>;
+struct P_m1 : yp::basic_policy<P_m1, dyn_rtti, yp::vptr_map<P_m1, ordered_vptr_map>, yp::vectored_error<P_m1, quiet_handler>,
+                               yp::basic_error_output<P_m1, null_stream>> {};
+struct P_m2 : P_m1::rebind<P_m2> {};
 
 } // namespace vf
 
